@@ -106,6 +106,9 @@ def directed(rng):
         add('eof-note-in-batch-%d' % v, {'conc': 3}, [S(note(), note(), call(1)), D, hret('m1.3'), hret('m1.2'), D, dict(a='peerclose'), D, hret('m1.1'), D])
         # a running call of a mixed batch must not hold back later messages once the batch's notification is done
         add('mixed-batch-then-call-%d' % v, {'conc': 3}, [S(note(), call(1)), D, hret('m1.1'), D, S(call(2)), D, S(note()), D, hret('m2.1'), hret('m3.1'), D, hret('m1.2'), D])
+        # malformed input answered directly by the reader while a reply is about to be delivered / the server is stopped
+        add('direrr-vs-deliver-%d' % v, {}, [S(call(1)), D, dict(a='send', kind=['garbage', 'empty', 'garbage'][v]), hret('m1.1'), dict(a='probe'), D])
+        add('direrr-vs-stop-%d' % v, {'push': True}, [S(call(1)), D, dict(a='send', kind='garbage'), dict(a='probe'), D, hret('m1.1'), D])
         # F2/F3: records after Stop
         add('f2-%d' % v, {}, [dict(a='stop'), D, dict(a='send', kind='garbage'), D])
         add('f2e-%d' % v, {}, [dict(a='stop'), D, dict(a='send', kind='empty'), D])
@@ -140,6 +143,10 @@ def directed(rng):
         add('cb-stop-%d' % v, P, [dict(a='callback', c='cbA'), D, dict(a='stop'), D, dict(a='callback', c='cbB'), dict(a='notify'), D])
         add('cb-restart-%d' % v, {'push': True, 'recvUnblocks': True}, [dict(a='callback', c='cbA'), D, dict(a='stop'), dict(a='gate', site='srv.read.lock'),
                                    dict(a='gate', site='srv.next.lock'), dict(a='restart'), dict(a='callback', c='cbB'), D, S(reply(1 + v % 2, v)), D])
+        # callbacks issued with a context that can never end (context.Background()): only a reply or the stop ends them
+        add('cb-noctx-stop-%d' % v, P, [dict(a='callback', c='cbA', noctx=True), D, dict(a='stop'), D])
+        add('cb-noctx-eof-%d' % v, P, [dict(a='callback', c='cbA', noctx=True), dict(a='callback', c='cbB'), D, dict(a='peerclose'), D])
+        add('cb-noctx-reply-%d' % v, P, [dict(a='callback', c='cbA', noctx=True), D, S(reply(1, v)), D, dict(a='callback', c='cbB', noctx=True), D, dict(a='recverr'), D])
         add('cb-mixed-%d' % v, P, [dict(a='callback', c='cbA'), D, S(reply(1, v), call(1)), D, hret('m1.2'), D])
         add('nopush-%d' % v, {}, [dict(a='callback', c='cbA'), dict(a='notify'), D, S(reply(1, v)), D])
         add('invalid-mix-%d' % v, {'push': bool(v % 2)}, [S(call(1), inv(2, False, v), inv(0, True, v), inv(0, False, v), note('nf')), D, hret('m1.1'), D,
@@ -153,7 +160,7 @@ FAMILY = {
     'C03': (['srv_c03q'], ['srv_c03'], ['srv_c03', 'srv_c06'], 45),
     'C06': (['srv_c06'], ['srv_c06', 'srv_c03'], ['srv_c06', 'srv_c03'], 45),
     'C07': (['srv_c07q'], ['srv_c07', 'srv_c03'], ['srv_c07', 'srv_c06'], 45),
-    'C08': (['srv_c08q'], ['srv_c08', 'srv_c08u'], ['srv_c08', 'srv_c08u', 'srv_c08r'], 50),
+    'C08': (['srv_c08q', 'srv_live'], ['srv_c08', 'srv_c08u', 'srv_live'], ['srv_c08', 'srv_c08u', 'srv_c08r'], 50),
     'C09': (['srv_c09'], ['srv_c09', 'srv_c09b', 'srv_c09r'], ['srv_c09', 'srv_c09b', 'srv_c09r'], 45),
 }
 
@@ -170,6 +177,19 @@ def must_fail(cfg, inv, module='MCServer'):
             raise C.ToolError('sensitivity run %s did not produce the expected violation of %s:\n%s' % (cfg, inv, out[-1500:]))
     finally:
         shutil.rmtree(w, ignore_errors=True)
+
+# thorough tier: a transition cover of the exhaustively explored state graph of these configurations is replayed as well
+COVER = {'C01': 'srv_c01', 'C09': 'srv_c09r'}
+
+def cover_scenarios(prop, seed):
+    from . import cover
+    cfg = COVER.get(prop)
+    if not cfg: return [], {}
+    rng = random.Random(seed * 31 + 7)
+    behs, nedges, nstates = cover.behaviours(cfg, 'MCServer', want_vars=('inq', 'used', 'calls', 'ch'), rng=rng)
+    opts = cfg_opts(cfg)
+    scs = [convert(b, rng, '%s-cover-%s-%d' % (prop, cfg, i), dict(opts), steer=True) for i, b in enumerate(behs)]
+    return scs, dict(cover_cfg=cfg, cover_edges=nedges, cover_states=nstates, cover_paths=len(scs))
 
 def gen_scenarios(prop, tier, seed, nsim):
     rng = random.Random(seed * 7919 + zlib.crc32(prop.encode()) % 1000)
@@ -210,26 +230,17 @@ def run_check(prop, tier, seed, replay=None):
             scs = [json.load(open(replay))['scenario']]
         else:
             scs = gen_scenarios(prop, tier, seed, 240 if tier == 'quick' else 3000)
+            cov_info = {}
+            if tier == 'thorough':
+                cs, cov_info = cover_scenarios(prop, seed)
+                scs += cs
         traces, info = C.run_scenarios(binp, scs, work)
         if info['tool_trouble']:
             raise C.ToolError('; '.join(info['tool_trouble']))
         tmpl = open(os.path.join(C.SPEC, 'cfg', 'trace_server.cfg.tmpl')).read()
         accepted, rej = C.validate_traces(traces, 'ServerContract', {prop}, tmpl, work)
         byname = {s['name']: s for s in scs}
-        violations = []
-        for r in rej[:4]:
-            name = r['trace'][0]['scn']
-            sc = byname.get(name)
-            # re-execute the single scenario and re-judge it (controlled schedules are deterministic)
-            w2 = os.path.join(work, 're_' + re.sub(r'\W', '_', name)); os.makedirs(w2, exist_ok=True)
-            tr2, info2 = C.run_scenarios(binp, [sc], w2, nworkers=1)
-            acc2, rej2 = C.validate_traces(tr2, 'ServerContract', {prop}, tmpl, w2)
-            if rej2:
-                path = C.save_replay(prop, name, dict(property=prop, scenario=sc, rejected_at=rej2[0]['at'], event=rej2[0]['event'],
-                                                     trace=rej2[0]['trace']))
-                violations.append((name, path, rej2[0]))
-            else:
-                raise C.ToolError('rejection of %s did not reproduce' % name)
+        violations, anomalies = C.confirm_rejections(prop, rej, lambda n: byname[n], lambda sc, w: C.run_scenarios(binp, [sc], w, nworkers=1)[0], 'ServerContract', tmpl, work)
         racy = sum(t[0].get('st_racy', 0) > 0 for t in traces)
         div = sum(t[0].get('st_diverged', 0) for t in traces)
         distinct = len({signature(t) for t in traces})
@@ -241,6 +252,9 @@ def run_check(prop, tier, seed, replay=None):
                    racy_schedules=racy, steering_divergences=div, state_projections_compared=sum(t[0].get('st_projok', 0) for t in traces), conformance_drift=sum(t[0].get('st_drift', 0) for t in traces), crashes=len(info['crashes']),
                    samples=[dict(scenario=scs[0]['name'], steps=scs[0]['steps'][:12], events=[e['ev'] for e in traces[0]][:40])],
                    exhaustive=False)
+        if replay is None and cov_info:
+            cov.update(cov_info)
+            cov['cover_paths_diverged'] = sum(1 for t in traces if '-cover-' in t[0]['scn'] and t[0].get('st_diverged', 0) > 0)
         C.write_evidence(prop, tier, seed, 'model_checking', cov, time.time() - t0, len(violations),
                          assumptions=['handlers return when the harness releases them', 'trusted: harness recorder, vchan classifier, TLC'])
         for name, path, r in violations:
